@@ -37,6 +37,8 @@ TITLE = "Anything built through the API encodes to valid TOML that decodes back"
 COQ_PROPS = "Props/C06.v"
 DRIVER_NAME = "c06"
 HARNESS = {"bin": "c06"}
+EXTRA_HARNESS = {"dev": ("dev", ())}      # the same scripts against a build with debug assertions and overflow checks
+EXTRA_ORACLE = ["dev"]
 THEOREMS = []          # filled in at the end of the file
 RULE = ("random finite trees (depth <= 6, fan-out <= 5) built by script through the real constructors: "
         "keys and strings with control characters, quotes, backslashes, newlines, empty / number- / date- / keyword-looking / dotted keys, any Unicode plane; "
@@ -563,8 +565,8 @@ def hand_cases():
 def gen_cases(rng, tier):
     out = hand_cases()
     g = Gen(rng)
-    n_docs = 4000 if tier == "quick" else 120000
-    n_vals = 4000 if tier == "quick" else 120000
+    n_docs = 4000 if tier == "quick" else 60000      # the shared parser model is super-linear in document size: ~20 ms per document
+    n_vals = 4000 if tier == "quick" else 100000
     n_keys = 1000 if tier == "quick" else 20000
     for i in range(n_docs):
         shape = rng.choice(["mixed", "mixed", "mixed", "tables", "values", "aot"])
@@ -734,12 +736,74 @@ def nontrivial(case, line):
     return case.meta.get("nodes", 2) >= 2
 
 
+def _features(kvs, acc, depth=1):
+    seen_table = False
+    keys = set()
+    for k, it in kvs:
+        if k in keys:
+            acc["duplicate_key"] = 1
+        keys.add(k)
+        if it[0] == "V":
+            if seen_table:
+                acc["value_after_table"] = 1
+            _vfeatures(it[1], acc)
+        elif it[0] == "T":
+            seen_table = True
+            acc["tables"] = acc.get("tables", 0) + 1
+            if it[1] and all(x[1][0] != "V" for x in it[1]):
+                acc["table_of_tables_only"] = 1
+            _features(it[1], acc, depth + 1)
+        else:
+            seen_table = True
+            acc["aot"] = 1
+            if not it[1]:
+                acc["empty_aot"] = 1
+            for b in it[1]:
+                if any(x[1][0] == "O" for x in b):
+                    acc["aot_in_aot"] = 1
+                _features(b, acc, depth + 1)
+    acc["depth"] = max(acc.get("depth", 0), depth)
+
+
+def _vfeatures(v, acc):
+    t = v[0]
+    if t == "f":
+        acc["float"] = 1
+    elif t == "d":
+        acc["datetime"] = 1
+    elif t == "A":
+        acc["array"] = 1
+        if len({e[0] for e in v[2]}) > 1:
+            acc["mixed_array"] = 1
+        if not v[2]:
+            acc["empty_array"] = 1
+        for e in v[2]:
+            _vfeatures(e, acc)
+    elif t == "I":
+        acc["inline"] = 1
+        if not v[2]:
+            acc["empty_inline"] = 1
+        for _, e in v[2]:
+            _vfeatures(e, acc)
+
+
 def extra_coverage(cases, impl, model):
-    kinds = {"documents": 0, "values": 0, "keys": 0, "with_float": 0, "with_aot": 0, "max_text_bytes": 0}
+    kinds = {"documents": 0, "values": 0, "keys": 0, "max_text_bytes": 0, "max_depth": 0}
+    feats = {}
     for c, l in zip(cases, impl):
         kinds["documents" if c.cmd == "build" else "values" if c.cmd == "val" else "keys"] += 1
         if l and not l.startswith(("PANIC", "CRASH")):
             kinds["max_text_bytes"] = max(kinds["max_text_bytes"], len(_text(fields(l))))
+        acc = {}
+        if c.cmd == "build":
+            _features(decode_case(c)[1], acc)
+        elif c.cmd == "val":
+            _vfeatures(decode_case(c), acc)
+        kinds["max_depth"] = max(kinds["max_depth"], acc.pop("depth", 0))
+        acc.pop("tables", None)
+        for k in acc:
+            feats[k] = feats.get(k, 0) + 1
+    kinds["cases_with"] = feats
     return {"c06": kinds}
 
 
